@@ -148,6 +148,13 @@ func (e *env) view(f func(ctx *cstate.StateContext)) {
 	f(sc.NewCtx(m, e.round, nil))
 }
 
+// scratch runs f on a throw-away per-transaction state (writes are discarded).
+func (e *env) scratch(f func(ctx *cstate.StateContext)) {
+	tdb := util.NewLevelNodeDB(util.NewMemoryNodeDB(), e.mpt.GetNodeDB(), false)
+	tmpt := util.NewMerklePatriciaTrie(tdb, e.mpt.GetVersion(), e.mpt.GetRoot(), statecache.NewEmpty())
+	f(sc.NewCtx(tmpt, e.round, nil))
+}
+
 func jsonOf(v interface{}) []byte {
 	b, err := json.Marshal(v)
 	if err != nil {
